@@ -15,6 +15,7 @@ import (
 var table = map[string]func(*fw.Ctx){
 	"C01": checks.C01,
 	"C02": checks.C02,
+	"C03": checks.C03,
 	"C04": checks.C04,
 	"C05": checks.C05,
 	"C06": checks.C06,
